@@ -592,6 +592,15 @@ def routing_consts(repo):
 EXTRACTORS = [("SegmentTables.lean", segment_tables), ("Registry.lean", registry_tables), ("Status.lean", status_tables),
               ("RoutingConsts.lean", routing_consts)]
 
+# C14: field-copy / log-segment / catalogue / capnp-schema tables live in tools/extract_c14.py (same conventions)
+try:
+    import extract_c14 as _extract_c14
+    EXTRACTORS += _extract_c14.extractors(sys.modules[__name__])
+except Exception as _c14_err:  # reported as `unparsed`, committed Gen files are kept
+    def _c14_unavailable(repo, _e=_c14_err):
+        raise ValueError("tools/extract_c14.py not loadable: %s" % _e)
+    EXTRACTORS += [(f, _c14_unavailable) for f in ("SegmentFields.lean", "WalTables.lean", "MetaTables.lean", "SchemaTables.lean")]
+
 
 def regenerate(repo, gen_dir):
     status = {"status": "ok", "files": {}}
